@@ -50,6 +50,18 @@ ACTIONS = ["EarlierCall", "ProbeCall", "SetConfig", "SetRoutes", "StoreResetAtSt
            "PrepareRoutes", "FirstStep", "Submit", "CloseTrade", "Outputs", "ResetConfig", "StoreResetAtEnd", "Crash"]
 
 
+def final_coverage(r):
+    """per-action (distinct, generated) of the LAST coverage dump only (tlc.py sums interim dumps of long runs)"""
+    import re
+    out = r.raw
+    i = out.rfind("The coverage statistics at")
+    res = {}
+    for m in tlc._RE_COV.finditer(out[i:] if i >= 0 else out):
+        d0, g0 = res.get(m.group(1), (0, 0))
+        res[m.group(1)] = (d0 + int(m.group(3)), g0 + int(m.group(4)))
+    return res
+
+
 def tla_set(xs):
     return "{" + ", ".join('"%s"' % x for x in xs) + "}"
 
@@ -73,8 +85,13 @@ def cfg(probe, lattice, calls, flips, intended, export, invariants=()):
 def instances(ctx):
     """(probe id, lattice, calls, flips) - the histories of each instance are replayed into the code"""
     q = [("P1", SMALL, 2, 1), ("P2", SMALL, 2, 1)]
-    t = [("P1", SMALL, 3, 1), ("P2", SMALL, 3, 1), ("P1", WIDE, 2, 1), ("P1", SMALL, 2, 2)]
+    t = [("P1", SMALL, 3, 1), ("P2", SMALL, 3, 1), ("P1", WIDE, 2, 1), ("P2", SMALL, 2, 2)]
     return ctx.pick(q, t)
+
+
+def model_only(ctx):
+    """larger instances, intended variant only: the property as an invariant over a bigger history space"""
+    return ctx.pick([("P1", WIDE, 2, 1)], [("P1", SMALL, 3, 2), ("P2", WIDE, 2, 2)])
 
 
 # ------------------------------------------------------------------------------------------------ encoding
@@ -145,6 +162,10 @@ def run(ctx):
         for kind, j in zip(("intended", "asis"), model_runs(ctx, pid, lattice, calls, flips, label)):
             jobs.append(j)
             owners.append((pid, label, kind))
+    for (pid, lattice, calls, flips) in model_only(ctx):
+        jobs.append(dict(module="Session", cfg_text=cfg(PROBES[pid], lattice, calls, flips, True, False, ["ProbeSeesItsArguments"]),
+                         workers=ctx.pick(2, 8), timeout=1500))
+        owners.append((pid, "%s %s calls<=%d flips<=%d (model only)" % (pid, "small" if lattice is SMALL else "wide", calls, flips), "monly"))
     # the as-is model against the property (smallest instance): TLC must find a counter-example; thorough: one
     # invariant at a time - which classes does the as-is model say are violated?
     jobs.append(dict(module="Session", cfg_text=cfg(PROBES["P1"], SMALL, 2, 1, False, False, ["ProbeSeesItsArguments"]),
@@ -164,15 +185,23 @@ def run(ctx):
         if kind == "inv":
             model_classes[label.split()[-1]] = "violated" if r.violation else "holds"
             continue
+        if kind == "monly":
+            if r.violation:
+                raise Machinery("intended variant of Session.tla violates %s (%s)\n%s" % (
+                    r.violation["name"], label, r.violation["trace"][:3000]))
+            ctx.add_tlc(r, "Session intended: " + label)
+            continue
         by_label.setdefault(label, {})[kind] = r
         if kind == "intended":
             if r.violation:
                 raise Machinery("intended variant of Session.tla violates %s (%s)\n%s" % (
                     r.violation["name"], label, r.violation["trace"][:3000]))
+            r.coverage = final_coverage(r)
             ctx.add_tlc(r, "Session intended: " + label)
         elif kind == "asis":
             if r.violation:
                 raise Machinery("Session.tla violates %s (%s)\n%s" % (r.violation["name"], label, r.violation["trace"][:3000]))
+            r.coverage = final_coverage(r)
             ctx.add_tlc(r, "Session as-is: " + label)
             missing = [a for a in ACTIONS if r.coverage.get(a, (0, 0))[1] == 0]
             if missing:
